@@ -10,7 +10,7 @@ set_option linter.unusedSimpArgs false
 
 /-- with a collection timeout of zero every queue request is transmitted at once, alone -/
 theorem c15_zero_timeout (s : Stack) (e : SDEntry) (d : Dest) (h : s.tm.sendCollectionTimeout = 0) :
-    s.queueSend e d = (s.emit (.queued d e)).sendSd [e] d := by
+    s.queueSend e d = (s.emit (.queued d e)).flushTo [e] d := by
   simp [queueSend, h]
 
 /-- ... and that transmission is exactly one effect, addressed to the destination the entry was queued for -/
@@ -18,15 +18,18 @@ theorem c15_zero_timeout_one_message (s : Stack) (e : SDEntry) (d : Dest) (h : s
     ∃ o, (s.queueSend e d).outs = s.outs ++ [(s.loop.now, .queued d e), (s.loop.now, o)] ∧
       ((∃ b, o = .send d b) ∨ (∃ err, o = .raised err)) := by
   rw [c15_zero_timeout s e d h]
-  obtain ⟨o, h1, _, _, h4⟩ := sendSd_cases (s.emit (.queued d e)) [e] d (by simp)
-  exact ⟨o, by simp [h1], h4⟩
+  obtain ⟨o, h1, _, _, h4⟩ := sendSd_cases ({ s.emit (.queued d e) with flushLog := (s.emit (.queued d e)).flushLog ++ [(d, [e])] }) [e] d (by simp)
+  refine ⟨o, ?_, h4⟩
+  unfold flushTo
+  rw [h1]
+  simp [emit]
 
 /-- a send-collection window closing: everything collected is handed to send_sd in one call, in the
 order it was queued, for the collector's own destination; the collector is marked done -/
 theorem c15_timeout_sends_collected (s : Stack) (cid : Nat) (c : Collector)
     (h : s.collectors.find? (fun c => decide (c.cid = cid)) = some c) :
     s.collectorTimeout cid =
-      ({ s with collectors := s.collectors.map (fun (c : Collector) => if c.cid = cid then { c with done := true } else c) }).sendSd c.data c.dest := by
+      ({ s with collectors := s.collectors.map (fun (c : Collector) => if c.cid = cid then { c with done := true } else c) }).flushTo c.data c.dest := by
   simp [collectorTimeout, h]
 
 /-- send_sd never splits or reorders: one call = at most one datagram to that destination -/
